@@ -258,7 +258,7 @@ func realExtends(raw json.RawMessage) any {
 	dict := map[string]any{"services": servicesYAML(svcs)}
 	details := types.ConfigDetails{WorkingDir: root, Environment: map[string]string{}}
 	opts := loader.VerifToOptions(&details, nil)
-	err = loader.VerifApplyExtends(context.Background(), filepath.Join(root, "$MAIN.yml"), dict, opts)
+	err = loader.VerifApplyExtendsIn(context.Background(), filepath.Join(root, "$MAIN.yml"), dict, opts)
 	if err == nil {
 		return map[string]any{"class": "ok"}
 	}
